@@ -56,7 +56,7 @@ int ss_compare(SIZED_STRING* s1, SIZED_STRING* s2)
     return -1;
   else if (i == s2->length)
     return 1;
-  else if (s1->c_string[i] < s2->c_string[i])
+  else if ((uint8_t) s1->c_string[i] < (uint8_t) s2->c_string[i])
     return -1;
   else
     return 1;
